@@ -27,6 +27,9 @@ HotClauses(o) ==
   \* the rises up to and including its own (o.own: the same table evaluated
   \* with the later rises left out)
   \cup (IF \A j \in 1..N(o) : Close(o.hot[j], o.own[j], o.tol) THEN {} ELSE {"EntryDependsOnlyOnRisesUpToItsOwn"})
+  \* the value is the method of Hotspot.tla applied to the table as written
+  \* (o.want: every cell evaluated with the rise of its own column)
+  \cup (IF \A j \in 1..N(o) : Close(o.hot[j], o.want[j], 2 * o.tol) THEN {} ELSE {"HotSpotFollowsTheStatedTable"})
 \* against earlier events of the same table: the statistical part
 \* (hot - zero) is proportional to OUT / IN
 PairClauses(o) ==
